@@ -46,6 +46,8 @@ def run(ctx):
                 "from every directory) + the repository's example project; at every usage position the definitions decoded "
                 "from 7 request kinds are compared; distinct = (usage kind, #same-named definitions, features that answered)")
     pinned(ctx)
+    if os.environ.get("VERIF_ONLY_PINNED"):
+        return
     for i in range(n):
         root = ctx.scratch(f"w{i}")
         ws = gen.gen_workspace(root, ctx.rng, depth=ctx.rng.randint(1, 3), venv=(i % 2 == 0))
